@@ -432,6 +432,12 @@ def emit(ctx, proofs, level="proof"):
         "the Rust harness crate /verif/harness (calls the functions of /repo, prints results)",
         "hand-written Gallina mirror tied to the code only by the correspondence runs",
     ] + cov["trusted_base"]
+    try:
+        chk = open(os.path.join(CACHE, "coqchk.txt")).read()
+        cov["coqchk"] = ("Axioms: <none> (coqchk -o over all property files, run by the setup)" if "Axioms: <none>" in chk
+                         else chk[-400:])
+    except OSError:
+        pass
     if proofs["failures"]:
         cov["proof_failures"] = proofs["failures"]
     # schema hygiene: the keys the evidence schema types as integers / list / bool
